@@ -35,9 +35,9 @@ def cfg(props, invs, maxlevel):
 
 
 def model_check(ctx, invs, props, quick):
-    r = ctx.mc("MessageObj", cfg(props, invs, 5 if quick else 99), name="MessageObj_" + ctx.pid,
+    r = ctx.mc("MessageObj", cfg(props, invs, 4 if quick else 99), name="MessageObj_" + ctx.pid,
                expect_actions=("ASet", "AGet", "AParse", "ABytes", "ADeepCopy", "ACopy", "APickle", "ANew1", "ASetIn", "AGetIn", "AAppendIn"),
-               timeout=900 if quick else 3000)
+               timeout=2400 if quick else 6000)
     return r
 
 
